@@ -1,7 +1,7 @@
 (* C01 - Hook resolution order is a pure function of registrations and class hierarchy.
    ONLY statements.  Model: PyrollLib.HookMachine (six per-class stores, lazily touched hooks, wrapper
    protocol, cycle flag); tied to pyroll/core/hooks.py by the correspondence run of this check. *)
-From PyrollLib Require Import HookMachine HookFacts.
+From PyrollLib Require Import HookMachine HookFacts HookWrappers.
 From Coq Require Import Lia.
 
 (* [chain mro log c h] (HookFacts.v) is the documented order: wrappers before plain; tryfirst, normal,
@@ -38,6 +38,22 @@ Theorem C01_first_non_none_wins :
 Proof. exact scan_first_non_none. Qed.
 Print Assumptions C01_first_non_none_wins.
 
+(* wrapper composition (repaired semantics): a stack of cycle-guarded wrappers (each adding its own amount) over a plain implementation,
+   evaluated on a quiet machine with enough recursion budget, yields the plain value plus every wrapper's amount - each wrapper exactly
+   once - and leaves registrations, values and every cycle flag as they were; for any number of wrappers *)
+Theorem C01_every_wrapper_exactly_once : forall mro o c h ws p z a, NoDup ws -> forall st n,
+  stack_state mro c h ws p z a st -> (forall w, In w ws -> flagged st w = false) -> length ws < n ->
+  exists st', get_result mro sem_fixed n st o c h = (st', Val (VInt (a + zsum z ws)%Z)) /\ same st st'.
+Proof. intros mro o c h ws p z a ND st n. apply stack_applies_every_wrapper_once. exact ND. Qed.
+Print Assumptions C01_every_wrapper_exactly_once.
+
+(* ... and from any flag state: exactly the wrappers that are not already running take part, once each *)
+Theorem C01_wrapper_stack_from_any_flag_state : forall mro o c h ws p z a, NoDup ws -> forall m n st,
+  stack_state mro c h ws p z a st -> length (unflagged ws st) = m -> m < n ->
+  exists st', get_result mro sem_fixed n st o c h = (st', Val (VInt (a + zsum z (unflagged ws st))%Z)) /\ same st st'.
+Proof. intros mro o c h ws p z a ND. apply stack_value. exact ND. Qed.
+Print Assumptions C01_wrapper_stack_from_any_flag_state.
+
 (* machine-checked record of the two defects repaired in /repo (fix: commits), on the pinned semantics:
    two cycle-guarded wrappers (+10, +1) over a plain 5 gave 5+1+1+10... the inner wrapper applied twice;
    a wrapper registered on the base class ignored the subclass's implementation. *)
@@ -47,6 +63,19 @@ Definition two_wrappers : list op :=
    Register 2 {| i_owner := 0; i_hook := 0; i_tier := 1; i_wrapper := true; i_body := Wrapper true (PoAdd 10) |};
    NewObj 0 0; Read 0 0].
 Definition mro1 (c : cls) : list cls := match c with 0 => [0] | 1 => [1; 0] | _ => [] end.
+
+(* non-vacuity of the stack theorem: the state after registering +10 and +1 over a plain 5 is such a stack, quiet, and 5 + 10 + 1 = 16 *)
+Example C01_wrapper_stack_nonvacuous :
+  let st := fst (run mro1 sem_fixed 50 init (firstn 4 two_wrappers)) in
+  stack_state mro1 0 0 [2; 1] 0 (fun w : iid => match w with 1%nat => 1%Z | 2%nat => 10%Z | _ => 0%Z end) 5%Z st /\
+  (forall w, In w [2; 1] -> flagged st w = false) /\ (5 + zsum (fun w : iid => match w with 1%nat => 1 | 2%nat => 10 | _ => 0 end) [2%nat; 1%nat] = 16)%Z.
+Proof.
+  cbv zeta. split; [|split; [intros w [E|[E|[]]]; subst; reflexivity | reflexivity]].
+  constructor.
+  - vm_compute. reflexivity.
+  - intros w [E|[E|[]]]; subst w; eexists; (split; [vm_compute; reflexivity | reflexivity]).
+  - eexists. split; [vm_compute; reflexivity | reflexivity].
+Qed.
 
 Example C01_each_wrapper_once_repaired :
   nth 4 (snd (run mro1 sem_fixed 50 init two_wrappers)) ODone = OOut (Val (VInt 16)).
